@@ -1,6 +1,7 @@
 """TuneResult.tla (ml::result_t: trials, slots, optimum, closest trial): exhaustive TLC run + replay of every edge of the state graph
 against a real ml::result_t. Used by C13 (optimum / slot clauses) and relevant to C18 (warm starts read only finished slots)."""
 import os
+from concurrent.futures import ThreadPoolExecutor
 
 import common
 import dot
@@ -9,20 +10,39 @@ from common import CheckError
 SPECDIR = os.path.join(common.SPEC, "tuner")
 
 
+# (configuration, folds, number of grid points, plan header, header argument, label):  the second one has TWO hyper-parameters (3 x 3 grid,
+# closest trial by Euclidean distance - where the city-block distance would choose differently) and one fold / one value to stay small
+CONFIGS = [("TuneResult.cfg", 2, 3, "P", 3, "all histories of <= 3 trials x 2 folds, one hyper-parameter"),
+           ("TuneResult_2d.cfg", 1, 9, "Q", 3, "all histories of <= 3 trials, two hyper-parameters on a 3 x 3 grid")]
+
+
 def run(rep, pid, tier):
     work = common.workdir(pid + "result")
     exe = common.build_harness("result_driver")["result_driver"]
-    dotfile = os.path.join(work, "result.dot")
-    r = common.tlc("TuneResult", "TuneResult.cfg", SPECDIR, workers=4, timeout=1800, extra=["-dump", "dot,actionlabels", dotfile])
-    rep.add_tlc(r, "TuneResult.tla (ml::result_t: all histories of <= 3 trials x 2 folds)")
+    with ThreadPoolExecutor(len(CONFIGS)) as ex:
+        outcomes = list(ex.map(lambda c: run_config(work, exe, *c), CONFIGS))
+    edges = states = compared = 0
+    for r, label, violations, error, stats in outcomes:
+        rep.add_tlc(r, "TuneResult.tla (ml::result_t: %s)" % label)
+        for text, payload in violations:
+            rep.violation(text, payload=payload)
+        if error and not rep.violations:
+            raise CheckError(error)
+        edges, states, compared = edges + stats[0], states + stats[1], compared + stats[2]
+    rep.add(tune_result_edges_replayed=edges, tune_result_states=states, tune_result_comparisons=compared)
+
+
+def run_config(work, exe, cfg, folds, grid, header, harg, label):
+    """returns (tlc result, label, [(violation text, payload)], infrastructure error or None, (edges, states, comparisons))"""
+    tag = cfg.replace(".cfg", "")
+    dotfile = os.path.join(work, tag + ".dot")
+    r = common.tlc("TuneResult", cfg, SPECDIR, workers=4 if header == "P" else 2, timeout=1800, extra=["-dump", "dot,actionlabels", dotfile], tag=tag)
     if not r.ok:
         if r.invariant_violated or r.property_violated:
-            rep.violation("TuneResult.tla violates %s" % (r.invariant_violated or "an action property"), payload=r.out[-4000:])
-            return
-        raise CheckError("TLC failed on TuneResult.tla:\n" + r.out[-3000:])
+            return r, label, [("TuneResult.tla (%s) violates %s" % (cfg, r.invariant_violated or "an action property"), r.out[-4000:])], None, (0, 0, 0)
+        return r, label, [], "TLC failed on TuneResult.tla (%s):\n%s" % (cfg, r.out[-3000:]), (0, 0, 0)
     g = dot.Graph(dotfile)
     pred = g.bfs_tree()
-    folds, grid = 2, 3
 
     def expected(s):
         trials = len(s["params"])
@@ -39,21 +59,21 @@ def run(rep, pid, tier):
             op = "S %d %d %d" % (args[0] - 1, args[1] - 1, args[2])
         return op + "\n" + expected(g.nodes[v])
 
-    plan = os.path.join(work, "result_plan.txt")
+    plan = os.path.join(work, tag + "_plan.txt")
     with open(plan, "w") as f:
         for a, b, lab in g.edges:
             path = g.path_to(pred, a)
             steps = [step(l, v) for _, l, v in path] + [step(lab, b)]
-            f.write("P %d %d %d\n%s\n" % (folds, grid, len(steps), "\n".join(steps)))
-    out = os.path.join(work, "result_replay.ndjson")
+            f.write("%s %d %d %d\n%s\n" % (header, folds, harg, len(steps), "\n".join(steps)))
+    out = os.path.join(work, tag + "_replay.ndjson")
     rc, o, _ = common.run([exe, plan, out], timeout=1800, check=False)
     recs = common.read_ndjson(out) if os.path.exists(out) else []
     summ = [x for x in recs if x["e"] == "Summary"]
     if rc != 0 or not summ:
-        rep.violation("tuning-result replay driver crashed (rc=%d)" % rc, payload={"output": o[-3000:]})
-        return
-    for m in [x for x in recs if x["e"] == "Mismatch"][:5]:
-        rep.violation("ml::result_t %s deviates from TuneResult.tla: impl=%s spec=%s" % (m["what"], m["impl"], m["spec"]), payload=m)
-    if not rep.violations and summ[0]["paths"] != len(g.edges):
-        raise CheckError("tuning-result replay: %d of %d paths executed" % (summ[0]["paths"], len(g.edges)))
-    rep.add(tune_result_edges_replayed=len(g.edges), tune_result_states=len(g.nodes), tune_result_comparisons=summ[0]["compared"])
+        return r, label, [("tuning-result replay driver crashed (rc=%d, %s)" % (rc, cfg), {"output": o[-3000:]})], None, (0, 0, 0)
+    violations = [("ml::result_t %s deviates from TuneResult.tla (%s): impl=%s spec=%s" % (m["what"], cfg, m["impl"], m["spec"]), m)
+                  for m in [x for x in recs if x["e"] == "Mismatch"][:5]]
+    error = None
+    if not violations and summ[0]["paths"] != len(g.edges):
+        error = "tuning-result replay (%s): %d of %d paths executed" % (cfg, summ[0]["paths"], len(g.edges))
+    return r, label, violations, error, (len(g.edges), len(g.nodes), summ[0]["compared"])
